@@ -20,8 +20,15 @@ t = TypeOfDiskImage.EMULATOR_FLOPPY_IMAGE if args["is_fd"] else TypeOfDiskImage.
 old = bytes.fromhex(args["old"])
 s = DiskSector(old, typeOfDiskImage=t) if old else DiskSector(typeOfDiskImage=t)
 out = []
-for v in args["values"]:
-    s.dataOfPayload = bytes.fromhex(v)
+buf = bytearray()
+for k, v in enumerate(args["values"]):
+    if args.get("recycle"):
+        # a copier loop: one working buffer, refilled for every sector and touched again after the assignment
+        buf.clear(); buf.extend(bytes.fromhex(v))
+        s.dataOfPayload = buf
+        buf.extend(b"later"); buf[0:1] = b""
+    else:
+        s.dataOfPayload = bytes.fromhex(v) if k % 2 else bytearray.fromhex(v)
     out.append([s.dataOfSector.hex(), s.dataOfPayload.hex()])
 result = out
 '''
@@ -45,7 +52,7 @@ def gen_cases(rng, tier):
             ssz = 256 if is_fd else 512
             old = "" if rng.random() < 0.3 else rng.randbytes(ssz).hex()
             vals = [rng.randbytes(rng.choice([0, 1, 255, 256, 257, 300, 511, 512, 600, rng.randint(0, 600)])).hex() for _ in range(rng.choice([1, 2, 4]))]
-            cases.append({"kind": "lib", "is_fd": is_fd, "old": old, "values": vals})
+            cases.append({"kind": "lib", "is_fd": is_fd, "old": old, "values": vals, "recycle": rng.random() < 0.4})
     for ns in (1, 2):
         for ws in (False, True):
             cases.append({"kind": "noop", "spec": gen_third_party(rng, is_fd=True, nsides=ns, max_files=2), "with_source": ws})
